@@ -178,7 +178,7 @@ def canon_text(d: dict) -> dict:
     return out
 
 
-def canon_bin(d: dict) -> dict:
+def canon_bin(d: dict, stored: bool = True) -> dict:
     """What the binary database must preserve of a dump.  Not stored by documented design: descriptions
     (module docstring), helpers ('Helpers are not added') and with them kv_order/orderby (the order of
     the keyvalue map itself is what is stored); an empty resource list is stored as 'no resources'."""
@@ -192,6 +192,9 @@ def canon_bin(d: dict) -> dict:
         out[key] = [[name, [[tags, dict(v, desc='')] for tags, v in variants]] for name, variants in d[key]]
     if not d['resources']:
         out['resources'] = None
+    if stored and not d['bases'] and d['classname'].casefold() != '_cbaseentity_':
+        # engine format: 'all others based on _CBaseEntity_' - a definition stored without bases gets it on load
+        out['bases'] = ['_CBaseEntity_']
     return out
 
 
@@ -892,6 +895,12 @@ def minimal_culprit(devs, kind: str, field: str, runner) -> list:
     return [f'{f}={lab}' for f, lab in devs]
 
 
+def dev_sig(culprit: list) -> dict:
+    """Coarse views of the minimal failing deviation: the fields and the value labels involved."""
+    return {'dev_fields': sorted({c.split('=', 1)[0] for c in culprit}),
+            'dev_values': sorted({c.split('=', 1)[1] for c in culprit})}
+
+
 def check_gen(acc: core.Acc, devs, cs: bool, ls: bool) -> None:
     devs = [list(d) for d in devs]
     problems, info = gen_problems(devs, cs, ls)
@@ -912,7 +921,7 @@ def check_gen(acc: core.Acc, devs, cs: bool, ls: bool) -> None:
         seen.add((kind, field))
         culprit = minimal_culprit(devs, kind, field, lambda sub: (gen_problems(sub, cs, ls)[0] or []))
         acc.fail(kind, case, f'generated FGD, deviations {["=".join(d) for d in devs]}, custom_syntax={cs} '
-                 f'label_spawnflags={ls}: {detail}', scope='generated', cs=cs, field=field, devs=culprit)
+                 f'label_spawnflags={ls}: {detail}', scope='generated', cs=cs, field=field, devs=culprit, **dev_sig(culprit))
 
 
 def field_subsets(menu: dict, depth: int, core_only: bool):
@@ -1024,6 +1033,8 @@ def bin_menus() -> dict:
                   ('second_block', False, lambda spec: spec['ents'].extend(
                       ents(f'big_{n}', 'NPC', ['_CBaseEntity_'],
                            kvs=[kvs(f'b{n}_{i}', 'FLOAT', f'Big {i}', '0', '') for i in range(160)]) for n in range(2))),
+                  ('implicit_base', True, setter(bin_ent, 'bases', [])),
+                  ('all_implicit', False, lambda spec: [e.update(bases=[]) for e in spec['ents'] if not e['alias']]),
                   ('odd_one_out', False, lambda spec: spec['ents'].append(
                       ents('lonely', 'POINT', ['_CBaseEntity_'],
                            kvs=[kvs(f'l_{i}', 'FLOAT', f'Lonely {i}', '0', '') for i in range(200)])))]
@@ -1066,7 +1077,7 @@ def bin_roundtrip(doc: FGD, expect: dict):
             continue
         want = canon_bin(expect[k])
         for label, have_all in (('get_fgd', got), ('get_ent', lazy)):
-            have = canon_bin(have_all[k]) if k in have_all else None
+            have = canon_bin(have_all[k], stored=False) if k in have_all else None
             if have is None:
                 problems.append(('bin_field_mismatch', 'classes', f'{k} missing from {label}'))
             elif want != have:
@@ -1098,7 +1109,7 @@ def check_bin_gen(acc: core.Acc, devs) -> None:
         seen.add((kind, field))
         culprit = minimal_culprit(devs, kind, field, lambda sub: bin_gen_problems(sub)[0])
         acc.fail(kind, case, f'generated engine-format FGD, deviations {["=".join(d) for d in devs]}: {detail}',
-                 scope='generated', field=field, devs=culprit)
+                 scope='generated', field=field, devs=culprit, **dev_sig(culprit))
 
 
 def check_bin_ship(acc: core.Acc) -> None:
@@ -1338,8 +1349,26 @@ def lattice_count(menu: dict, shards: list) -> int:
     return sum(1 for s in shards for idx, _ in enumerate(enum_devs(menu, s[1], s[2])) if idx % s[4] == s[3])
 
 
+def check_load(acc: core.Acc) -> bool:
+    """The bundled database must load at all (everything else compares against that load)."""
+    acc.evaluations += 1
+    try:
+        shipped()
+    except Exception as exc:  # noqa: BLE001
+        _SHIP.clear()
+        acc.fail('shipped_load_error', {'part': 'load'}, f'FGD.engine_dbase() on a fresh process state raised {exc_head(exc)}',
+                 exc=type(exc).__name__)
+        return False
+    acc.nontrivial += 1
+    return True
+
+
 def run(ctx: core.Ctx) -> None:
     q = ctx.quick
+    if not check_load(ctx.acc):
+        ctx.rule = 'the bundled database failed to load; nothing else was explored'
+        ctx.acc.caps.append('bundled database failed to load')
+        return
     full, dumps = shipped()          # loaded before the fork: every worker inherits it
     blocks = lazy_blocks()
     deps = block_deps(blocks)
@@ -1459,7 +1488,9 @@ def run(ctx: core.Ctx) -> None:
 def replay(case: dict) -> list:
     acc = core.Acc()
     part = case['part']
-    if part == 'ship_ent':
+    if part == 'load':
+        check_load(acc)
+    elif part == 'ship_ent':
         check_ship_ent(acc, case['cls'], case['cs'], case['ls'])
     elif part == 'ship_whole':
         check_ship_whole(acc, case['cs'], case['ls'])
